@@ -146,6 +146,7 @@ func runCheck(repo, prop, tier string, rest []string) int {
 		return fail2("cannot read contracts: %v", err)
 	}
 	e.computeWrittenKeys()
+	e.computeNeedPrivate()
 	findings, err := loadFindings()
 	if err != nil {
 		return fail2("known_findings.txt: %v", err)
